@@ -145,3 +145,53 @@ fn step_misc() {
     kani::cover!(s > CAP, "skip beyond capacity");
     core::mem::forget(b);
 }
+
+macro_rules! get_long_oid {
+    ($name:ident, $n:expr) => {
+        #[kani::proof]
+        #[kani::unwind(12)]
+        #[kani::stub(alloc::fmt::format, stub_format)]
+        fn $name() {
+            use crate::ber::{BerEncoder, SnmpOid};
+            use crate::snmp::get::SnmpGet;
+            use crate::snmp::msg::SnmpPdu;
+            // OID content of $n octets: first, middle and last symbolic, the rest zero
+            let mut c = [0u8; $n];
+            c[0] = kani::any();
+            c[$n / 2] = kani::any();
+            c[$n - 1] = kani::any();
+            let pdu = SnmpPdu::GetNextRequest(SnmpGet { request_id: 0x55, vars: vec![SnmpOid(std::borrow::Cow::Borrowed(&c[..]))] });
+            let mut buf = Buffer::default();
+            pdu.push_ber(&mut buf).expect("fits");
+            // reference
+            let mut vb = W::new();
+            vb.octets(0x06, &c);
+            vb.bytes(&[0x05, 0]);
+            let mut vbs = W::new();
+            vbs.tlv(0x30, &vb);
+            let mut body = W::new();
+            body.int(0x55);
+            body.int(0);
+            body.int(0);
+            body.tlv(0x30, &vbs);
+            let mut want = W::new();
+            want.tlv(0xa1, &body);
+            let d = buf.data();
+            assert!(d.len() == want.n, "pdu_length");
+            // headers of every nesting level (first 24 octets) and the tail; the OID body in between is a memcpy
+            let mut i = 0;
+            while i < 8 {
+                assert!(d[i] == want.b[i] && d[8 + i] == want.b[8 + i] && d[16 + i] == want.b[16 + i], "pdu_nested_length_headers");
+                assert!(d[want.n - 1 - i] == want.b[want.n - 1 - i], "pdu_tail");
+                i += 1;
+            }
+            kani::cover!(true, "encoded");
+            core::mem::forget(buf);
+            core::mem::forget(pdu);
+        }
+    };
+}
+//@ C17,C03,C15 quick timeout=900 | GetNext PDU with one OID of 127 content octets (largest short-form length): every nesting level's header == reference encoding
+get_long_oid!(get_long_oid_127, 127);
+//@ C17,C03,C15 quick timeout=900 | GetNext PDU with one OID of 128 content octets (first long-form length 81 80): every nesting level's header == reference encoding
+get_long_oid!(get_long_oid_128, 128);
